@@ -80,7 +80,7 @@ o.before('{', '''
 ''', start=o.find('pub fn into_inner(self)'), ind='    ')
 
 FRAME = '''        final(self).hist_() == old(self).hist_(), final(self).rst0_() == old(self).rst0_(), final(self).rel0_() == old(self).rel0_(),
-        hook_frame(old(self).inner(), final(self).inner(), res),'''
+        hook_frame(old(self).inner(), final(self).inner(), res), final(self).inner().fobs() == old(self).inner().fobs(),'''
 
 # ---- flush_eq
 fe = o.find('fn flush_eq(&mut self)')
@@ -205,6 +205,7 @@ closed spec fn replace_is_atomic() -> bool { true }
 /// `replace` on the Replace adapter (a pass-through that does not flush pending deletes/inserts) is outside
 /// the verified envelope: no verified caller can call it
 closed spec fn accepts_replace(&self) -> bool { false }
+#[verifier::prophetic] open spec fn fobs(&self) -> Obs<Self::Error> { self.inner().fobs() }
 ''', '    ')
 
 def method(o, name, ev, flushes_first):
